@@ -6,6 +6,7 @@ import (
 	"testing"
 
 	"verifsim/kit"
+	"verifsim/mgmtsim"
 	"verifsim/enginesim"
 	"verifsim/facesim"
 	"verifsim/fwsim"
@@ -32,6 +33,8 @@ func TestSim(t *testing.T) {
 		kit.Drive(t, facesim.RxEngine{}, a)
 	case "streamsim":
 		kit.Drive(t, facesim.StreamEngine{}, a)
+	case "mgmtsim":
+		kit.Drive(t, mgmtsim.Engine{}, a)
 	case "fwsim":
 		kit.Drive(t, fwsim.Engine{}, a)
 	case "tablesim":
